@@ -16,7 +16,7 @@ use std::borrow::Cow;
 use std::net::SocketAddr;
 use std::time::Duration;
 use tokio::io::{AsyncReadExt, AsyncWriteExt};
-use trusttunnel::verif_hooks::VProtocol;
+use trusttunnel::verif_hooks::{self as vh, VProtocol};
 
 #[derive(Clone, Debug, serde::Serialize, serde::Deserialize)]
 pub struct Case {
@@ -333,6 +333,64 @@ async fn stalled_upload_case(h2: bool) -> Result<(usize, usize, bool), String> {
     Ok((uploaded, got.len(), intact))
 }
 
+
+/// An HTTP/2 client aborts its stream (RST_STREAM with an error code) in the middle of an upload,
+/// the destination is silent: that is a failure of the client side, so the whole tunnel is torn down
+/// (the outbound connection is released) - not a clean end of the upload with the other direction
+/// left open.
+async fn client_abort_case(reason: u32) -> Result<(bool, i64), String> {
+    let dst = tokio::net::TcpListener::bind("127.0.0.1:0").await.map_err(|e| e.to_string())?;
+    let daddr = dst.local_addr().unwrap();
+    let world = make_world(&Cfg { allow_private: true, clients: vec![("u".into(), "p".into())], ..Cfg::default() })?;
+    let peer: SocketAddr = "198.51.100.7:40000".parse().unwrap();
+    let (io, _d) = door::open(&world.ctx, VProtocol::Http2, "m.t", None, peer, 1 << 16);
+    let spec = ReqSpec::connect(&daddr.to_string()).with_auth(Some(b"Basic dTpw".to_vec()));
+    let mut cl = H2Client::connect(io).await?;
+    let mut st = cl.request(spec.h2_request()?, false).await?;
+    let mut acc = Box::pin(dst.accept());
+    let Some(Ok((mut ds, _))) = door::until(&mut acc, Duration::from_secs(3)).await else {
+        return Err("the destination was not connected".into());
+    };
+    drop(acc);
+    let _ = ds.set_linger(Some(Duration::ZERO));
+    if !matches!(st.response(Duration::from_secs(3)).await, H2Outcome::Response(ref r) if r.status == 200) {
+        return Err("CONNECT was not answered 200".into());
+    }
+    let _ = st.tx.send_data(bytes::Bytes::from(vec![0x61u8; 3000]), false);
+    let mut got = 0usize;
+    let mut tmp = [0u8; 4096];
+    let t0 = std::time::Instant::now();
+    while got < 3000 && t0.elapsed() < Duration::from_secs(3) {
+        let mut r = Box::pin(ds.read(&mut tmp));
+        match door::until(&mut r, Duration::from_millis(500)).await {
+            Some(Ok(n)) if n > 0 => got += n,
+            _ => break,
+        }
+    }
+    if got < 3000 {
+        return Err(format!("the destination received {got} of 3000 uploaded bytes"));
+    }
+    if vh::metrics_snapshot(&world.ctx).outbound_tcp_sockets != 1 {
+        return Err("outbound_tcp_sockets is not 1 on an open tunnel".into());
+    }
+    st.tx.send_reset(h2::Reason::from(reason));
+    // the destination sees its connection end ...
+    let mut ended = false;
+    let t0 = std::time::Instant::now();
+    while !ended && t0.elapsed() < Duration::from_secs(3) {
+        let mut r = Box::pin(ds.read(&mut tmp));
+        match door::until(&mut r, Duration::from_millis(200)).await {
+            Some(Ok(0)) | Some(Err(_)) => ended = true,
+            _ => {}
+        }
+    }
+    // ... and the endpoint has let go of it
+    door::spin(50).await;
+    let gauge = vh::metrics_snapshot(&world.ctx).outbound_tcp_sockets;
+    drop(cl);
+    Ok((ended, gauge))
+}
+
 fn cases() -> Vec<Case> {
     let mut v = vec![];
     for h2 in [false, true] {
@@ -362,6 +420,22 @@ pub fn run_into(rep: &mut Report, _tier: Tier) {
         "what":"real accept path + real TCP forwarder: {HTTP/1.1, HTTP/2} x destination sends {0, 5, 3000, 200000} bytes then {FIN, RST} x client {only reads, uploads 3000 bytes then half-closes, uploads and keeps open}; an HTTP/2 upload goes in three DATA frames, the middle one empty"}));
     rep.cov("door_ending_cases", r.evaluations);
     rep.violations(r.violations);
+    for (name, reason) in [("cancel", 8u32), ("internal-error", 2)] {
+        let case = json!({"kind":"door","client_abort":name});
+        match rt::run_real(client_abort_case(reason)) {
+            Err(e) => rep.violation(Violation::new("C02:machinery", e, case)),
+            Ok((ended, gauge)) => {
+                if !ended || gauge != 0 {
+                    rep.violation(Violation::new(
+                        format!("C02:door:client-abort-not-a-failure:{name}:h2"),
+                        format!("the client reset its stream (RST_STREAM {name}) in mid-upload with a silent destination: destination saw its connection end = {ended}, outbound_tcp_sockets afterwards = {gauge} (the tunnel must be torn down, not left half-open)"),
+                        case,
+                    ));
+                }
+                rep.sub.push(json!({"sub":"door-client-abort","reason":name,"destination_connection_ended":ended,"outbound_tcp_sockets_after":gauge}));
+            }
+        }
+    }
     for h2 in [false, true] {
         let p = if h2 { "h2" } else { "h1" };
         let case = json!({"kind":"door","stalled_upload":true,"h2":h2});
@@ -452,6 +526,14 @@ async fn probe_listener_timeout(h2: bool) -> Result<String, String> {
 }
 
 pub fn replay(case: &serde_json::Value) -> Result<(), Violation> {
+    if let Some(name) = case["client_abort"].as_str() {
+        let reason = if name == "cancel" { 8 } else { 2 };
+        let (ended, gauge) = rt::run_real(client_abort_case(reason)).map_err(|e| Violation::new("C02:machinery", e, json!({})))?;
+        if !ended || gauge != 0 {
+            return Err(Violation::new(format!("C02:door:client-abort-not-a-failure:{name}:h2"), format!("destination saw its connection end = {ended}, outbound_tcp_sockets afterwards = {gauge}"), case.clone()));
+        }
+        return Ok(());
+    }
     if case["stalled_upload"].as_bool() == Some(true) {
         let h2 = case["h2"].as_bool().unwrap_or(false);
         let (uploaded, got, intact) = rt::run_real(stalled_upload_case(h2)).map_err(|e| Violation::new("C02:machinery", e, json!({})))?;
